@@ -3,10 +3,18 @@
 // Contracts for package runner/common, checked by /verif/govc.
 package common
 
+// From the property: the output ends immediately before a stop sequence and contains
+// none. Cutting at the first occurrence of the reported stop achieves that only if no
+// other stop starts earlier in the text, so FindStop must report a stop whose first
+// occurrence is the earliest (third ensures).
 //@ func FindStop
+//@   modifies nothing
 //@   ensures result.0 ==> scontains(sequence, result.1) && exists k int :: 0 <= k && k < len(stops) && stops[k] == result.1
 //@   ensures !result.0 ==> result.1 == "" && forall k int :: 0 <= k && k < len(stops) ==> !scontains(sequence, stops[k])
-//@   loop 1 invariant forall k int :: 0 <= k && k <= rangeindex ==> !scontains(sequence, stops[k])
+//@   ensures result.0 ==> forall k int :: 0 <= k && k < len(stops) && scontains(sequence, stops[k]) ==> sindex(sequence, result.1) <= sindex(sequence, stops[k])
+//@   loop 1 invariant !found ==> match == "" && forall k int :: 0 <= k && k <= rangeindex ==> !scontains(sequence, stops[k])
+//@   loop 1 invariant found ==> scontains(sequence, match) && first == sindex(sequence, match) && exists k int :: 0 <= k && k <= rangeindex && stops[k] == match
+//@   loop 1 invariant found ==> forall k int :: 0 <= k && k <= rangeindex && scontains(sequence, stops[k]) ==> first <= sindex(sequence, stops[k])
 
 //@ func ContainsStopSuffix
 //@   ensures result <==> exists k int, i int :: 0 <= k && k < len(stops) && 1 <= i && i <= len(stops[k]) && shassuffix(sequence, stops[k][0:i])
@@ -23,3 +31,12 @@ package common
 //@                    || (len(token) >= 2 && u8cont(token[len(token)-1]) && (u8lead3(token[len(token)-2]) || u8lead4(token[len(token)-2])))
 //@                    || (len(token) >= 3 && u8cont(token[len(token)-1]) && u8cont(token[len(token)-2]) && u8lead4(token[len(token)-3]))
 //@   loop 1 invariant 1 <= i && i <= 5 && !incomplete && forall j int :: 1 <= j && j < i ==> u8cont(token[len(token)-j])
+
+// TruncateStop: loops 1 (piece lengths), 2 (re-split).
+//@ func TruncateStop
+//@   modifies nothing
+//@   ensures len(result.0) <= len(pieces)
+//@   ensures old(sindex(sjoin(pieces, ""), stop)) == -1 ==> result.0 == pieces && !result.1
+//@   loop 1 invariant forall k int :: 0 <= k && k <= rangeindex ==> lengths[k] == len(pieces[k])
+//@   loop 2 invariant 0 <= start && start <= len(joined) && len(result) <= rangeindex + 1
+//@   loop 2 invariant forall k int :: 0 <= k && k < len(lengths) ==> 0 <= lengths[k] && lengths[k] <= 4611686018427387904
